@@ -553,15 +553,23 @@ class Configuration(_Configuration):
         except Error as exc:
             if getenv().debug.configuration:
                 raise
+            self._restore_after_failed_reload()
             return self.error.set(
                 f'problem parsing configuration file line {self.parser.index_line}\nerror message: {exc}',
             )
         except Exception as exc:
             if getenv().debug.configuration:
                 raise
+            self._restore_after_failed_reload()
             return self.error.set(
                 f'problem parsing configuration file line {self.parser.index_line}\nerror message: {exc}',
             )
+
+    def _restore_after_failed_reload(self) -> None:
+        # _clear() moved the running neighbors aside: a reload which fails before they are either rolled back
+        # or replaced (file vanished, exception in a section parser) must not leave the configuration empty
+        if self._previous_neighbors:
+            self._rollback_reload()
 
     def _reload(self) -> bool:
         # If created via from_settings(), no configurations to reload
@@ -578,13 +586,16 @@ class Configuration(_Configuration):
 
         if self._text:
             if not self.parser.set_text(fname):
+                self._restore_after_failed_reload()
                 return False
         else:
             # resolve any potential symlink, and check it is a file
             target = os.path.realpath(fname)
             if not os.path.isfile(target):
+                self._restore_after_failed_reload()
                 return False
             if not self.parser.set_file(target):
+                self._restore_after_failed_reload()
                 return False
 
         self.process.add_api()
